@@ -255,6 +255,10 @@ func init() {
 			for _, id := range []reg.ID{p.ID() | 1, p.ID() | 2, p.ID() | 0x80} {
 				emit("lookupid", fmt.Sprintf("lookupid %d %d", uint32(id), uint16(reg.S64)), c20LookupResp(reg.LookupID(id, reg.S64)))
 			}
+			// a virtual id never resolves to a physical register
+			for _, s := range specs[:9] {
+				emit("accept-lookup-virtual", fmt.Sprintf("accept-lookup-virtual %d %d %s", uint32(p.ID()|1), uint16(s), c20LookupResp(reg.LookupID(p.ID()|1, s))), "ok")
+			}
 		}
 		for k := 0; k <= 4; k++ {
 			for idx := 0; idx <= 33; idx++ {
@@ -638,6 +642,10 @@ func c20Replay(all []reg.Physical, ts []string, emit func(kind, req, resp string
 				emit("accept-lookup", fmt.Sprintf("accept-lookup %d %d %d %d %s", arg(1), arg(2), uint32(p.ID()), arg(4), acc), "ok")
 			}
 			break
+		}
+	case "accept-lookup-virtual":
+		if arg(1) >= 0 && arg(2) >= 0 {
+			emit("accept-lookup-virtual", fmt.Sprintf("accept-lookup-virtual %d %d %s", arg(1), arg(2), c20LookupResp(reg.LookupID(reg.ID(arg(1)), reg.Spec(arg(2))))), "ok")
 		}
 	case "accept-vas":
 		if arg(1) >= 0 && len(ts) >= 3 {
